@@ -128,12 +128,12 @@ class WorldFile(FileList):
 
     def _modify(self, atom_inst, func):
         if atom_inst.slot:
-            for slot in atom_inst.slot:
-                if slot == "0":
-                    new_atom_inst = atom(atom_inst.key)
-                else:
-                    new_atom_inst = atom(atom_inst.key + ":" + slot)
-                func(self, new_atom_inst)
+            # slot is a single string, not a sequence of slots
+            if atom_inst.slot == "0":
+                new_atom_inst = atom(atom_inst.key)
+            else:
+                new_atom_inst = atom(atom_inst.key + ":" + atom_inst.slot)
+            func(self, new_atom_inst)
         else:
             atom_inst = atom(atom_inst.key)
             func(self, atom_inst)
